@@ -35,7 +35,7 @@ def bad_sched(rng, tz, clock):
         t = gen.rand_timing(rng, call, aware)
         return {"op": "sch", "call": call, "timings": [t, list(t)], "is_list": True, "clock": clock}
     if kind == "wrong-type":
-        return {"op": "sch", "call": rng.choice([1, 2, 3]), "timings": [["c", 5]], "clock": clock}
+        return {"op": "sch", "call": rng.choice([1, 2, 3, 4]), "timings": [["c", 5]], "clock": clock}
     return {"op": "sch", "call": 0, "timings": [["c", 5], ["c", 6]], "is_list": True, "clock": clock}
 
 
